@@ -2856,6 +2856,9 @@ func (dsc *dataStoreCommand) setMove(source, destination, memberName string) (ou
 
 	ss.remove(memberName)
 	dsc.setDirty()
+	if ss.count == 0 {
+		dsc.ds.data.remove(source)
+	}
 
 	output.data = respInt(added)
 	return
